@@ -799,10 +799,10 @@ def l3(cx):
     n = 0
     for label, fn in planners:
         for st in own_nodes(fn):
-            if isinstance(st, ast.AugAssign) and isinstance(st.op, ast.Add) and norm(st.target) == "offset":
+            if isinstance(st, ast.AugAssign) and isinstance(st.op, ast.Add) and isinstance(st.target, ast.Name):
                 v = st.value
-            elif isinstance(st, ast.Assign) and norm(st.targets[0]) == "offset" and isinstance(st.value, ast.BinOp) and isinstance(st.value.op, ast.Add) and "offset" in (norm(st.value.left), norm(st.value.right)):
-                v = st.value.right if norm(st.value.left) == "offset" else st.value.left
+            elif isinstance(st, ast.Assign) and isinstance(st.targets[0], ast.Name) and isinstance(st.value, ast.BinOp) and isinstance(st.value.op, ast.Add) and st.targets[0].id in (norm(st.value.left), norm(st.value.right)):
+                v = st.value.right if norm(st.value.left) == st.targets[0].id else st.value.left
             else:
                 continue
             txt = norm(v)
